@@ -35,6 +35,9 @@ pub fn leak(s: &str) -> &'static str {
 /// document (a literal `X`) between the surrounding text
 pub fn help_doc(s: &str) -> Doc {
     let mut d = Doc::default();
+    if s == EMPTY_DOC {
+        return d;
+    }
     let mut rest = s;
     loop {
         // `{{doc:X}}` - a nested document, `{{lit:X}}` - a literal token of the same document
@@ -64,8 +67,11 @@ pub fn help_doc(s: &str) -> Doc {
 
 /// does the text ask for a help built with the Doc API
 pub fn wants_doc(s: &str) -> bool {
-    s.contains("{{doc:") || s.contains("{{lit:")
+    s.contains("{{doc:") || s.contains("{{lit:") || s == EMPTY_DOC
 }
+
+/// a title computed at run time that turns out empty: `group_help(Doc::default())`
+pub const EMPTY_DOC: &str = "{{empty-doc}}";
 
 fn named(n: &Names, help: &Option<String>) -> NamedArg {
     let mut res: Option<NamedArg> = None;
@@ -462,7 +468,10 @@ pub fn build(spec: &Spec) -> P {
 }
 
 pub fn build_options(o: &OptSpec) -> OptionParser<V> {
-    let mut p = build(&o.root).to_options();
+    let mut p = match &o.cargo {
+        Some(c) => bpaf::cargo_helper(leak(c), build(&o.root)).to_options(),
+        None => build(&o.root).to_options(),
+    };
     if let Some(d) = &o.descr {
         p = p.descr(d.as_str());
     }
